@@ -50,6 +50,10 @@ class SimTransport:
         self.producerPaused = False
         self.bufferSize = net.default_buffer_size
         self.lose_calls = []      # virtual times of loseConnection()/abortConnection()
+        self.tx_log = bytearray()   # first bytes written / received, for handshake oracles
+        self.rx_log = bytearray()
+        self.rx_total = 0
+        self.write_marks = []       # (rx_total at the time of the write, first bytes of the write)
         self.tls_closing = False
         self.lost_reason = None
 
@@ -77,6 +81,10 @@ class SimTransport:
         if not self.connected or self._writeDisconnected:
             return
         if data:
+            if len(self.tx_log) < 600:
+                self.tx_log += bytes(data[:600])
+            if len(self.write_marks) < 40:
+                self.write_marks.append((self.rx_total, bytes(data[:24])))
             self.outbuf += data
             self._maybePauseProducer()
             self.writing = True
@@ -404,6 +412,7 @@ class SimReactor(Clock):
         self.netlog = []
         self.names = {}         # hostname -> ip (None = does not resolve)
         self.unroutable = set()  # hosts/(host,port) whose SYNs vanish
+        self.refuse = set()      # hosts/(host,port) that answer RST
         self.default_buffer_size = 2 ** 16
         self.wire_capacity = 2 ** 18
         self.default_mode = "tcp"
@@ -524,7 +533,7 @@ class SimReactor(Clock):
             return None
         self.pending.remove(c)
         port = self.ports.get(c.port)
-        if refuse or port is None or not port.listening:
+        if refuse or port is None or not port.listening or c.host in self.refuse or (c.host, c.port) in self.refuse:
             self.netlog.append(("refused", c.host, c.port, self.seconds()))
             c.connectionFailed(failure.Failure(error.ConnectionRefusedError()))
             return None
@@ -626,6 +635,9 @@ class SimReactor(Clock):
         chunk = bytes(d.wire[:n])
         del d.wire[:n]
         d.delivered += n
+        t.rx_total += n
+        if len(t.rx_log) < 600:
+            t.rx_log += chunk[:600]
         try:
             t.protocol.dataReceived(chunk)
         except BaseException:
